@@ -371,24 +371,29 @@ def op_dddmp(w, ins):
     if not roots:
         return 'skip'
     text, meta = write_dddmp(w, m, roots, ins['style'])
-    fname = f'd{w.step_no}.dddmp'
+    # half of the files go to one and the same path, rewritten each time
+    fname = 'd.dddmp' if ins.get('same_path') else f'd{w.step_no}.dddmp'
     w.put_file(fname, text.encode('utf8'))
     D = seams.DD
     torn = ins.get('torn')
+    tname = fname if (torn and torn.get('same_path')) else 'torn.dddmp'
     if torn:
         # an unreadable file first (torn at a seeded byte, or a read error at
         # a seeded position), written in another style: whatever the loader
         # makes of it must not leak into the load of the good file
         t2, _ = write_dddmp(w, m, roots[:1] if torn.get('one') else roots, torn['style'])
         raw2 = t2.encode('utf8')
+        # (with `same_path`: the reader retries the same path once the
+        # writer has finished)
         if torn.get('read_fault'):
-            w.put_file('torn.dddmp', raw2)
+            w.put_file(tname, raw2)
             done = _arm(w, dict(kind='read', pos=torn['cut'] % (len(raw2) + 1)))
-            ok2, nb2 = call(w, D.dddmp.load, 'torn.dddmp')
+            ok2, nb2 = call(w, D.dddmp.load, tname)
             done()
         else:
-            w.put_file('torn.dddmp', raw2[:torn['cut'] % len(raw2)])
-            ok2, nb2 = call(w, D.dddmp.load, 'torn.dddmp')
+            w.put_file(tname, raw2[:torn['cut'] % len(raw2)])
+            ok2, nb2 = call(w, D.dddmp.load, tname)
+        w.put_file(fname, text.encode('utf8'))
         w.stats['dddmp_torn_refused' if not ok2 else 'dddmp_torn_accepted'] += 1
         del nb2
         w.cur_info.pop('raised', None)
@@ -479,8 +484,10 @@ def gen_manager_roundtrip(w, r, cfg):
 def gen_dddmp(w, r, cfg):
     torn = None
     if r.random() < 0.3:
-        torn = dict(style=r.randrange(1 << 30), cut=r.randrange(1 << 12), read_fault=r.randrange(2), one=r.randrange(2))
-    return dict(op='dddmp', roots=[_ri(r) for _ in range(r.randint(1, 3))], style=r.randrange(1 << 30), torn=torn)
+        torn = dict(style=r.randrange(1 << 30), cut=r.randrange(1 << 12), read_fault=r.randrange(2), one=r.randrange(2),
+                    same_path=r.randrange(2))
+    return dict(op='dddmp', roots=[_ri(r) for _ in range(r.randint(1, 3))], style=r.randrange(1 << 30), torn=torn,
+                same_path=r.randrange(2))
 
 
 for _n, _f, _p, _g in [
